@@ -172,6 +172,18 @@ func e2eRefusals(c *e2eCtx) error {
 			}
 			return false
 		}, false, false},
+		{"uncommitted-change-and-empty-app-version", []string{"track"}, func(s *scenario, r *rand.Rand) bool {
+			// goat.yaml leaves appVersion empty (it is resolved when the configuration is loaded):
+			// loading must not write anything back, the command is refused further down
+			writeCfg(s, func(c *proj.Config) { c.AppVersion = "" })
+			for _, p := range sortedKeys(s.newTree) {
+				if strings.HasSuffix(p, ".go") {
+					os.WriteFile(filepath.Join(s.dir, p), []byte(s.newTree[p]+"\n// edited\n"), 0644)
+					return true
+				}
+			}
+			return false
+		}, false, false},
 		{"staged-change", []string{"track"}, func(s *scenario, r *rand.Rand) bool {
 			for _, p := range sortedKeys(s.newTree) {
 				if strings.HasSuffix(p, ".go") {
@@ -342,6 +354,29 @@ func e2eRefusals(c *e2eCtx) error {
 			return true
 		}, false, true},
 		{"valid-track", []string{"track"}, func(s *scenario, r *rand.Rand) bool { return true }, false, true},
+		{"valid-track-symlinked-go-file", []string{"track"}, func(s *scenario, r *rand.Rand) bool {
+			// two more main packages share one source file through a symbolic link, added in one more
+			// commit together with a change: whatever goat makes of the link, it decides before it writes
+			src := "package main\n\n// Version is shared by two commands through a symbolic link.\nfunc Version(a int) int {\n\ta += 7\n\treturn a\n}\n"
+			mainSrc := "package main\n\nfunc main() {\n\tprintln(Version(1))\n}\n"
+			for _, d := range []string{"cmd/zsrc", "cmd/zlink"} {
+				if os.MkdirAll(filepath.Join(s.dir, d), 0o755) != nil || os.WriteFile(filepath.Join(s.dir, d, "main.go"), []byte(mainSrc), 0o644) != nil {
+					return false
+				}
+			}
+			if os.WriteFile(filepath.Join(s.dir, "cmd/zsrc/version.go"), []byte(src), 0o644) != nil {
+				return false
+			}
+			if os.Symlink("../zsrc/version.go", filepath.Join(s.dir, "cmd/zlink/version.go")) != nil {
+				return false
+			}
+			if _, err := proj.Git(s.dir, 1700000200, "add", "-A", "--", "cmd/zsrc", "cmd/zlink"); err != nil {
+				return false
+			}
+			_, err := proj.Git(s.dir, 1700000200, "commit", "-q", "-m", "two commands sharing a file through a symbolic link")
+			writeCfg(s, func(c *proj.Config) { c.New = "HEAD" })
+			return err == nil
+		}, false, true},
 		{"valid-track-package-path-through-a-regular-file", []string{"track"}, func(s *scenario, r *rand.Rand) bool {
 			// the tracking package directory cannot be created (a path segment is a committed regular
 			// file): the command fails at its very first write, with nothing touched
@@ -460,6 +495,7 @@ func e2eRefusals(c *e2eCtx) error {
 		"unresolvable-new-revision":                             {map[string]bool{"newResolves": false}, "new-unresolvable"},
 		"new-revision-not-head":                                 {map[string]bool{"newIsHead": false}, "new-not-head"},
 		"uncommitted-change":                                    {map[string]bool{"worktreeClean": false}, "uncommitted"},
+		"uncommitted-change-and-empty-app-version":              {map[string]bool{"worktreeClean": false}, "uncommitted"},
 		"staged-change":                                         {map[string]bool{"worktreeClean": false}, "uncommitted"},
 		"staged-new-file":                                       {map[string]bool{"worktreeClean": false}, "uncommitted"},
 		"already-instrumented":                                  {map[string]bool{"generatedExists": true}, "already-instrumented"},
